@@ -47,6 +47,11 @@ def regenerate():
     if not os.path.exists(p) or open(p).read() != fcode:
         open(p, "w").write(fcode)
     meta["flags"] = fl
+    scode, sites = c12_memo_tr.cache_sites(common.REPO)
+    p = os.path.join(gen, "CacheSites.v")
+    if not os.path.exists(p) or open(p).read() != scode:
+        open(p, "w").write(scode)
+    meta["sites"] = {k: len(v) for k, v in sites.items()}
     return meta
 
 
@@ -76,6 +81,31 @@ D_CORE = [
     ["add_jitter", 0], ["add_diagonal", 0], ["add_low_rank", 0, NONE, NONE, True], ["cat_rows", 0, 0, True, True],
     ["getitem", 0], ["transpose"], ["scale", 0], ["expand", 0],
 ]
+MODEL_DERIVS = {"add_jitter", "add_diagonal", "add_low_rank", "cat_rows", "getitem", "transpose", "scale", "expand"}
+# derivations that keep (or may keep) child operator objects of self: the derived operator shares them with self
+D_SHARE = [["add_jitter", 0], ["add_diagonal", 0], ["add_diag_op", 1], ["scale", 0], ["getitem", 0], ["transpose"], ["expand", 0],
+           ["repeat"], ["clone"], ["detach"], ["rebuild"], ["sibling"], ["batch_index", 0], ["batch_index", 1], ["batch_index", 2],
+           ["batch_index", 3]]
+DA_WRITERS = [["solve", 0], ["logdet"], ["inv_quad_logdet", 0, True], ["diagonal"], ["cholesky", [], []],
+              ["root_decomposition", [], []], ["svd"], ["to_dense"]]
+DA_READERS = [["solve", 0], ["logdet"], ["inv_quad_logdet", 1, True], ["diagonal"], ["to_dense"]]
+DA_MAIN = ("LowRankRootAddedDiag", "Kernel[3]", "KronAddedDiag", "AddedDiag(Dense,ConstantDiag)", "Dense")
+
+
+def derive_after_queries(label, quick):
+    """query the parent through each cached entry point, derive an operator that shares child objects with it, query the
+    DERIVED operator (compared with the dense value and a fresh, never-queried equal operator)"""
+    batched = "[" in label or label.startswith(("Kernel", "BlockDiag", "BatchRepeat"))
+    ders = [d for d in D_SHARE if d[0] != "batch_index" or batched]
+    ws = DA_WRITERS if not quick or label in DA_MAIN else DA_WRITERS[:4] + DA_WRITERS[6:]
+    out = []
+    for w_ in ws:
+        for d in ders:
+            for r in DA_READERS:
+                out.append([("q", w_, False), ("d", d, False), ("q", r, False)])
+    return out
+
+
 METHODS = ["cholesky", "symeig", "diagonalization", "svd", "lanczos", "pivoted_cholesky"]
 INV_METHODS = ["cholesky", "symeig", "diagonalization", "svd", "lanczos", "pinverse"]
 Q_WIDE = (Q_CORE
@@ -302,6 +332,24 @@ def factor_jobs(quick):
             for b_ in FW:
                 for c in (QF if not quick else [q for q in Q_FACTOR[7:16] if q in QF]):
                     jobs.append((label, expr, [("q", a, False), ("q", b_, False), ("q", c, False)]))
+    return jobs
+
+
+def kernel_exprs():
+    """batched KernelLinearOperator with per-member inputs and a per-member scale (different diagonals per member)"""
+    x = {"shape": [3, 5, 2], "data": [((7 * i + 3 * j + 5 * k) % 5) - 2 + (i if k == 0 else 0) for i in range(3) for j in range(5) for k in range(2)]}
+    c = {"shape": [3, 1, 1], "data": [1, 2, 3]}
+    return [("Kernel[3]", {"cls": "Kernel", "x1": x, "x2": x, "square": False, "c": c})]
+
+
+def kernel_jobs():
+    jobs = []
+    for label, expr in kernel_exprs():
+        # not positive definite (X X^T scaled): the queries that are defined for any operator
+        for w_ in (["diagonal"], ["to_dense"]):
+            for d in D_SHARE:
+                for r in (["diagonal"], ["to_dense"], ["matmul", 0]):
+                    jobs.append((label, expr, [("q", w_, False), ("d", d, False), ("q", r, False)]))
     return jobs
 
 
@@ -882,6 +930,8 @@ def case_lit(rec, I=None):
                 break   # this class overrides the query (not transcribed): the comparable part of the history ends here
             e = "EQuery %d %s" % (ev[1], I.get("q", "query", query_lit(ev[2])))
         elif ev[0] == "d":
+            if ev[2][0] not in MODEL_DERIVS:
+                break       # a derivation the model does not transcribe (direct predicates only from here on)
             if stp["raised"]:
                 # the model needs the description of the objects that WOULD have been built: none is available;
                 # a raising derivation ends the comparable part of the history
@@ -1005,6 +1055,10 @@ def plan(ctx, exprs):
                 jobs.append((label, expr, h))
             for h in explicit_then_default(label, True):
                 jobs.append((label, expr, h))
+            if label in ("Dense", "AddedDiag(Dense,ConstantDiag)", "AddedDiag(Dense,Diag)", "Kron(Dense,Dense)", "BlockDiag(Dense)",
+                         "BatchRepeat(Dense)", "Toeplitz", "Dense[2]x3"):
+                for h in derive_after_queries(label, True):
+                    jobs.append((label, expr, h))
             nr = 60
         else:
             L = 3 if label in ("Dense", "AddedDiag(Dense,ConstantDiag)", "AddedDiag(Dense,Diag)", "Toeplitz") else 2
@@ -1018,6 +1072,8 @@ def plan(ctx, exprs):
             for h in shared_base_histories(label, False):
                 jobs.append((label, expr, h))
             for h in explicit_then_default(label, False):
+                jobs.append((label, expr, h))
+            for h in derive_after_queries(label, False):
                 jobs.append((label, expr, h))
             nr = 600
         for _ in range(nr):
@@ -1278,8 +1334,14 @@ def run(ctx):
     fjobs = factor_jobs(ctx.quick)
     ojobs += fjobs
     others = others + factor_exprs()
+    ojobs += kernel_jobs()
     for label, expr in others:
-        if label.startswith("Triangular"):
+        if not label.startswith("Triangular"):
+            for h in derive_after_queries(label, ctx.quick):
+                ojobs.append((label, expr, h))
+    others = others + kernel_exprs()
+    for label, expr in others:
+        if label.startswith(("Triangular", "Kernel")):
             continue        # not positive definite: the factorization queries of the family are undefined
         for h in explicit_then_default(label, ctx.quick):
             ojobs.append((label, expr, h))
